@@ -43,7 +43,9 @@ Done(e) ==
   /\ Cardinality(seen[e]) >= MinCalls
   /\ varies[e] = 1..Len(first[e])       \* no byte position is constant
   /\ closed' = closed \cup {e}
-  /\ UNCHANGED <<seen, first, varies>>
+  \* a closed entry point accepts no further draw, so its history is no longer needed (keeps the trace state small)
+  /\ seen' = [seen EXCEPT ![e] = {}]
+  /\ UNCHANGED <<first, varies>>
 
 IsEv(k) == l <= Len(Rec) /\ Rec[l].ev = k /\ l' = l + 1
 TDraw == IsEv("draw") /\ Draw(Rec[l].e, Rec[l].v)
